@@ -205,6 +205,21 @@ class PairwiseBasedAlgorithm:
         return graph_of_elements
 
     @staticmethod
+    def _ranking_with_elements_of(ranking, elements) -> list:
+        """
+        Express the buckets of a ranking computed on a sub-problem with the elements of the initial dataset.
+
+        A sub-problem is a new Dataset, which encodes its elements on its own: for instance the elements "1" and "2"
+        of a dataset that also contains "a" become the integers 1 and 2 in a sub-problem that does not contain "a".
+
+        :param ranking: a ranking (iterable of buckets) whose elements are the ones of the sub-problem
+        :param elements: the elements of the initial dataset which form the sub-problem
+        :return: the list of buckets of the ranking, as sets of elements of the initial dataset
+        """
+        initial_elements = {str(element): element for element in elements}
+        return [{initial_elements[str(element)] for element in bucket} for bucket in ranking]
+
+    @staticmethod
     def can_be_all_tied(id_elements_to_check: Set[int], cost_matrix: ndarray) -> bool:
         """
         Check if all elements in a given set can be tied together with minimal cost.
